@@ -1,7 +1,7 @@
 (* C05 — the token tree obeys the documented grammar.  PARTIAL: attribute bounds that follow from the
    regenerated patterns.  The inductive proof over the parser model is not claimed (DESIGN.md). *)
 From Coq Require Import ZArith List Bool Lia.
-From Verif Require Import PyStr Rx RxSpec RxAnalysis RxGroups UnicodeGen RxGen Inline Block BlockProofs BlockTyping BlockLevels BlockGen Entry C01.
+From Verif Require Import PyStr Rx RxSpec RxAnalysis RxGroups UnicodeGen RxGen Inline Block BlockProofs BlockTyping BlockLevels BlockGen Doc DocProofs Entry C01.
 Import ListNotations.
 Local Open Scope nat_scope.
 
@@ -57,6 +57,19 @@ Qed.
 Theorem C05_heading_levels_are_1_to_6 : forall C s toks rf, block_cfg = Some C -> block_parse C s = Ok (toks, rf) -> lvls_ok toks = true.
 Proof. intros C s toks rf HC. exact (block_parse_levels C (block_cfg_ok C HC) (atx_groups_ok C HC) s toks rf). Qed.
 
+(* the whole AST (block pass + inline pass, core configuration with or without the six inline plugins of the model): list
+   children are items, items occur only in lists, the children of quotes and items are well-formed, heading levels are 1..6;
+   that leaves carry text and containers carry children is the type of [node] itself *)
+Theorem C05_document_ast_is_well_typed : forall px hw s ast, doc_parse_x px hw s = Ok ast -> forallb node_ok ast = true.
+Proof.
+  intros px hw s ast H. unfold doc_parse_x in H. destruct block_cfg as [CB|] eqn:EB; [|discriminate].
+  destruct (inline_cfg_x px hw []) as [d|]; [|discriminate]. unfold doc_parse, bind in H.
+  destruct (block_parse CB _) as [[toks rf]| |] eqn:Eb; try discriminate.
+  apply (inline_pass_all_ok _ toks ast H). apply forallb_forall. intros t Ht.
+  pose proof (C05_block_tree_is_well_typed CB _ toks rf Eb) as H1. pose proof (C05_heading_levels_are_1_to_6 CB _ toks rf EB Eb) as H2.
+  unfold toks_ok, lvls_ok in H1, H2. rewrite forallb_forall in H1, H2. unfold btok_ok. rewrite (H1 t Ht), (H2 t Ht). reflexivity.
+Qed.
+
 Example C05_levels_not_vacuous : lvl_ok (BQuote [BHeading [] 7 false]) = false /\ lvl_ok (BList [BListItem [BHeading [] 6 false]] true 45%Z 0 false None) = true.
 Proof. split; reflexivity. Qed.
 
@@ -69,3 +82,4 @@ Print Assumptions C05_atx_level_in_1_6.
 Print Assumptions C05_list_marker_bounded.
 Print Assumptions C05_block_tree_is_well_typed.
 Print Assumptions C05_heading_levels_are_1_to_6.
+Print Assumptions C05_document_ast_is_well_typed.
